@@ -1,192 +1,156 @@
-"""Hunt (round 3) for violations of C18 on the unmodified tree.
+"""Hunt for NEW pre-existing violations of C18 (wheel file names / platform names parsed faithfully).
 
-Run:  cd /tmp/wt/C18i && PYTHONPATH=/tmp/wt/C18i/src /venv/bin/python hunt_C18.py
+Run:  cd /tmp/wt/C18j && PYTHONPATH=/tmp/wt/C18j/src /venv/bin/python hunt_C18.py [N]
+
+Oracles: packaging.utils.parse_wheel_filename for wheel names; for platform names the documented
+alias table, the X_Y numbers spelled in the name, and the round trip Platform.parse(str(p)) == p.
 """
 
 from __future__ import annotations
 
-import itertools
 import random
 import sys
-from unittest import mock
 
 from packaging.utils import InvalidWheelFilename as PkgInvalid
 from packaging.utils import parse_wheel_filename
 
-from dep_logic.tags import EnvSpec, Platform, PlatformError, os
+from dep_logic.tags import EnvSpec, InvalidWheelFilename, Platform, PlatformError
+from dep_logic.tags import os as dos  # noqa: F401  (dep_logic.tags.os)
 from dep_logic.tags.platform import Arch
-from dep_logic.tags.tags import InvalidWheelFilename, parse_wheel_tags
+from dep_logic.tags.tags import parse_wheel_tags
 
-findings: list[str] = []
+N = int(sys.argv[1]) if len(sys.argv) > 1 else 60000
+rnd = random.Random(18)
+found: list[str] = []
 cases = 0
 
 
-def oracle_sets(fn: str):
-    tags = parse_wheel_filename(fn)[3]
-    return (
-        {t.interpreter for t in tags},
-        {t.abi for t in tags},
-        {t.platform for t in tags},
-    )
+def report(msg: str) -> None:
+    if msg not in found:
+        found.append(msg)
+        print("VIOLATION:", msg)
 
 
-def lib_sets(fn: str):
-    p, a, l = parse_wheel_tags(fn)
-    return set(p), set(a), set(l)
+# ---------------------------------------------------------------- wheel names
+NAMES = ["foo", "Foo_Bar", "foo.bar", "a_b.c", "x", "zope.interface", "A", "a1_2", "foo_", "_foo", "whl", "foo.whl"]
+VERSIONS = ["1", "1.0", "1.0.0", "2024.1.1", "1!2.0", "1.0a1", "1.0.post1", "1.0.dev0", "1.0+local.1", "1.0+ab_c",
+            "0", "1_0", "1.0rc1", "v1.0", "1.0-1"]
+BUILDS = ["1", "0", "123", "1abc", "1_x", "2.local", "1.0", "007", "1ABC", "3_", "9__9", "1.whl"]
+PY = ["py3", "py2", "py2.py3", "cp310", "cp39.cp310.cp311.cp312", "pp310", "CP310", "Py3", "cp3", "py30", "cp313t",
+      "pt39", "ip27", "jy27", "py3.PY3", "cp310.cp310", "py"]
+ABI = ["none", "abi3", "cp310", "cp310m", "cp313t", "pypy310_pp73", "NONE", "ABI3", "cp39.abi3", "abi3.none",
+       "pyston39_23", "cp310d", "none.none", "cp27mu"]
+PLAT = ["any", "win32", "win_amd64", "win_arm64", "linux_x86_64", "linux_armv7l", "manylinux1_x86_64",
+        "manylinux2010_i686", "manylinux2014_aarch64", "manylinux_2_17_x86_64.manylinux2014_x86_64",
+        "manylinux_2_28_aarch64", "musllinux_1_1_x86_64", "musllinux_1_2_aarch64", "macosx_10_9_x86_64",
+        "macosx_11_0_arm64", "macosx_10_9_universal2", "macosx_10_6_intel", "macosx_10_9_universal", "ANY",
+        "Win_AMD64", "MacOSX_11_0_ARM64", "any.any", "linux_armv6l", "linux_ppc64le", "linux_s390x",
+        "linux_riscv64", "linux_loongarch64", "manylinux_2_5_x86_64.manylinux1_x86_64.any", "whl", "l", "h.w"]
+ENVS = [
+    EnvSpec.from_spec(">=3.8"),
+    EnvSpec.from_spec(">=3.8", "linux", "cpython"),
+    EnvSpec.from_spec(">=3.10", "macos", "cpython"),
+    EnvSpec.from_spec(">=3.9", "windows", "cpython"),
+    EnvSpec.from_spec(">=3.9", "alpine", "pypy"),
+    EnvSpec.from_spec(">=3.13", "manylinux_2_28_aarch64", "cpython", True),
+    EnvSpec.from_spec(">=3.7", "manylinux_2_31_armv7l", "cpython"),
+    EnvSpec.from_spec(">=3.7", "macos_12_3_x86_64"),
+    EnvSpec.from_spec(">=3.7", "windows_x86", "pyston"),
+]
 
 
-def check_wheel(fn: str, note: str = "") -> bool:
-    """True when the library agrees with packaging on an accepted name."""
+def check_wheel(fn: str) -> None:
     global cases
     cases += 1
     try:
-        want = oracle_sets(fn)
+        _, _, _, tags = parse_wheel_filename(fn)
     except PkgInvalid:
-        return True  # outside the quantifier
+        tags = None
     try:
-        got = lib_sets(fn)
-    except Exception as e:  # noqa: BLE001
-        findings.append(f"{note}{fn!r}: packaging accepts {want}, library raises {e!r}")
-        return False
-    if got != want:
-        findings.append(f"{note}{fn!r}: library sees {got}, packaging reports {want}")
-        return False
-    return True
-
-
-# --------------------------------------------------------------------------
-# 1. random fuzzer over the PEP 427 grammar (ASCII)
-# --------------------------------------------------------------------------
-rnd = random.Random(18)
-NAME_AL = "abcxyzABZ019_."
-PY = ["py2", "py3", "py27", "py310", "cp39", "cp313", "CP312", "pp310", "pt39", "ip27", "jy27", "graalpy311"]
-ABI = ["none", "abi3", "cp39", "cp313t", "cp36m", "cp27mu", "pypy310_pp73", "graalpy240_311_native", "ABI3", "cp312d"]
-PLAT = [
-    "any", "win32", "win_amd64", "win_arm64", "linux_x86_64", "linux_armv7l", "linux_armv6l",
-    "manylinux1_i686", "manylinux2010_x86_64", "manylinux2014_aarch64", "manylinux_2_17_x86_64",
-    "manylinux_2_28_ppc64le", "manylinux_2_31_riscv64", "manylinux_2_36_loongarch64", "manylinux_2_17_s390x",
-    "musllinux_1_1_x86_64", "musllinux_1_2_aarch64", "macosx_10_9_x86_64", "macosx_10_9_intel",
-    "macosx_10_6_universal", "macosx_11_0_arm64", "macosx_10_9_universal2", "macosx_10_10_fat64",
-    "macosx_10_4_fat32", "MacOSX_11_0_ARM64", "freebsd_14_0_release_amd64", "ios_13_0_arm64_iphoneos",
-    "android_21_arm64_v8a", "emscripten_3_1_58_wasm32", "wasi_0_0_0_wasm32",
-]
-
-
-def rand_name():
-    while True:
-        s = "".join(rnd.choice(NAME_AL) for _ in range(rnd.randint(1, 8)))
-        if "__" not in s:
-            return s
-
-
-def rand_version():
-    v = ".".join(str(rnd.randint(0, 30)) for _ in range(rnd.randint(1, 4)))
-    if rnd.random() < 0.2:
-        v = f"{rnd.randint(1, 3)}!" + v
-    if rnd.random() < 0.3:
-        v += rnd.choice(["a1", "b2", "rc3", ".post4", ".dev5", "_post1", ".RC1", "+local.1", "+abc_1"])
-    return v
-
-
-def rand_tag(pool):
-    if rnd.random() < 0.2:  # random ascii tag
-        alpha = "abcdefghijklmnopqrstuvwxyz0123456789_ABCXYZ"
-        base = [rnd.choice("abcpy") + "".join(rnd.choice(alpha) for _ in range(rnd.randint(0, 9)))]
-    else:
-        base = [rnd.choice(pool)]
-    while rnd.random() < 0.35:
-        base.append(rnd.choice(pool))
-    return ".".join(base)
-
-
-n_fuzz = 120_000
-for _ in range(n_fuzz):
-    parts = [rand_name(), rand_version()]
-    if rnd.random() < 0.4:
-        parts.append(str(rnd.randint(0, 999)) + rnd.choice(["", "", "b", "_x", ".1", "abc"]))
-    parts += [rand_tag(PY), rand_tag(ABI), rand_tag(PLAT)]
-    ext = ".whl"
-    r = rnd.random()
-    if r < 0.05:
-        ext = rnd.choice([".zip", ".WHL", ".whl ", ".tar.gz", "", ".whl.txt", ".wh", "whl"])
-    elif r < 0.10:
-        if rnd.random() < 0.5 and len(parts) > 3:
-            del parts[rnd.randrange(len(parts))]
-            del parts[rnd.randrange(len(parts))]
-        else:
-            parts.insert(rnd.randrange(len(parts)), rnd.choice(["1", "x", "py3"]))
-            parts.insert(rnd.randrange(len(parts)), rnd.choice(["1", "x", "py3"]))
-    fn = "-".join(parts) + ext
-    cases += 1
-    try:
-        want = oracle_sets(fn)
-    except PkgInvalid:
-        want = None
-    try:
-        got = lib_sets(fn)
+        got = parse_wheel_tags(fn)
     except InvalidWheelFilename:
         got = None
-    except Exception as e:  # noqa: BLE001
-        findings.append(f"fuzz {fn!r}: unexpected {e!r}")
-        continue
-    dashes = fn[:-4].count("-")
-    bad_shape = not fn.endswith(".whl") or dashes not in (4, 5)
-    if bad_shape and got is not None:
-        findings.append(f"fuzz {fn!r}: wrong extension / part count but library returned {got}")
-    if want is not None and got != want:
-        findings.append(f"fuzz {fn!r}: library {got}, packaging {want}")
-    # wheel_compatibility must see the same sets as compatibility() on packaging's sets
-    if want is not None and got is not None and rnd.random() < 0.05:
-        for env in (
-            EnvSpec.from_spec(">=3.8", "linux", "cpython"),
-            EnvSpec.from_spec(">=3.9", "macos_12_0_x86_64"),
-            EnvSpec.from_spec("==3.13.*", "windows_arm64", "cpython", True),
-            EnvSpec.from_spec(">=2.7", "musllinux_1_2_aarch64", "pypy"),
-        ):
-            try:
-                a = env.wheel_compatibility(fn)
-                b = env.compatibility(sorted(want[0]), sorted(want[1]), sorted(want[2]))
-            except ValueError:
-                continue  # known family 12 (py3a1-like tags) cannot occur here, but be safe
-            if a != b:
-                findings.append(f"fuzz {fn!r} env {env}: wheel_compatibility {a} != on packaging sets {b}")
+    except Exception as e:  # wrong exception type
+        report(f"parse_wheel_tags({fn!r}) raised {type(e).__name__}: {e}")
+        return
+    bad_shape = (not fn.endswith(".whl")) or fn[:-4].count("-") not in (4, 5)
+    if bad_shape:
+        if got is not None:
+            report(f"{fn!r}: wrong extension / part count but parse_wheel_tags returned {got}")
+        try:
+            ENVS[0].wheel_compatibility(fn)
+        except InvalidWheelFilename:
+            pass
+        except Exception as e:
+            report(f"wheel_compatibility({fn!r}) raised {type(e).__name__} instead of InvalidWheelFilename")
+        else:
+            report(f"wheel_compatibility({fn!r}) did not raise")
+        return
+    if tags is None:
+        return  # packaging rejects for other reasons (name, version, build tag): outside the quantifier
+    if got is None:
+        report(f"{fn!r}: packaging accepts, library raises InvalidWheelFilename")
+        return
+    exp = ({t.interpreter for t in tags}, {t.abi for t in tags}, {t.platform for t in tags})
+    if tuple(set(x) for x in got) != exp:
+        report(f"{fn!r}: library tags {got}, packaging {exp}")
+    # cross product really is the full one
+    if {(a, b, c) for a in got[0] for b in got[1] for c in got[2]} != {(t.interpreter, t.abi, t.platform) for t in tags}:
+        report(f"{fn!r}: expanded tag triples differ from packaging's")
+    for env in ENVS:
+        try:
+            a = env.wheel_compatibility(fn)
+            b = env.compatibility(sorted(exp[0]), sorted(exp[1]), sorted(exp[2]))
+        except Exception as e:
+            report(f"{env}.wheel_compatibility({fn!r}) raised {type(e).__name__}: {e}")
+            continue
+        if a != b:
+            report(f"{env}.wheel_compatibility({fn!r}) = {a}, compatibility(packaging tags) = {b}")
 
-# --------------------------------------------------------------------------
-# 2. hand-built wheel names for branches no random generator reaches
-# --------------------------------------------------------------------------
-hand = [
-    "a-0-py3-none-any.whl",
-    "A.b_c-1!2.0.post1-0-py2.py3-none-any.whl",
-    "foo-1.0-1-py3-none-any.whl",  # build tag that is also a legal implicit post release
-    "foo-1.0-py3.py3-none.none-any.any.whl",  # duplicates
-    "my.whl-1.0-py3-none-any.whl",  # '.whl' inside the project name
-    "foo.whl.bar-1.0-7-cp39.cp310-abi3-manylinux_2_17_x86_64.manylinux2014_x86_64.whl",
-    "foo-1.0-py3-none-any.whl.whl",  # '.whl' as a compressed platform member
-    "foo-1.0-py3-none-macosx_10.9_x86_64.whl",  # legacy dotted macOS tag splits like packaging does
-    "FOO-1.0-PY3-NONE-ANY.whl",
-    "foo-1.0-py3-none-any.WHL",
-    "foo-1.0-py3-none-any.whl\n",
-    "foo-1.0-py3-none-any.whl/",
-    "-1.0-py3-none-any.whl",
-    "foo--py3-none-any.whl",
-    "foo-1.0-py3-none-anİ.whl",  # dotted capital I lower-cases to two code points
-    "foo-1.0-py3-ẞ-any.whl",  # capital sharp s
-]
-for fn in hand:
-    check_wheel(fn, "hand ")
 
-# context dependent lower-casing (Greek final sigma): lower() of the whole field vs of each member
+def rand_tagset(pool: list[str]) -> str:
+    if rnd.random() < 0.25:
+        alphabet = "abcdefghijklmnopqrstuvwxyzABCXYZ0123456789_"
+        k = rnd.choice([1, 1, 2, 3, 4, 6])
+        return ".".join("".join(rnd.choice(alphabet) for _ in range(rnd.randint(1, 8))) for _ in range(k))
+    return ".".join(rnd.choice(pool) for _ in range(rnd.choice([1, 1, 1, 2, 3])))
+
+
+def rand_wheel() -> str:
+    parts = [rnd.choice(NAMES), rnd.choice(VERSIONS)]
+    if rnd.random() < 0.4:
+        parts.append(rnd.choice(BUILDS))
+    parts += [rand_tagset(PY), rand_tagset(ABI), rand_tagset(PLAT)]
+    r = rnd.random()
+    if r < 0.08:  # wrong number of parts
+        k = rnd.choice([0, 1, 2, 3, 4, 7, 8])
+        parts = (parts * 2)[:k] if k else [""]
+    ext = ".whl"
+    if r > 0.9:
+        ext = rnd.choice(["", ".zip", ".WHL", ".Whl", ".whl ", ".whl\n", ".whl.zip", ".wh", "whl", ".whll", ".tar.gz", ".whl.", ".whl/"])
+    return "-".join(parts) + ext
+
+
+for _ in range(N):
+    check_wheel(rand_wheel())
+
+# hand-picked corner cases
 for fn in [
-    "foo-1.0-py3-AΣ.B-any.whl",
-    "foo-1.0-AΣ.py3-none-any.whl",
-    "foo-1.0-py3-none-AΣ.B.whl",
+    ".whl", "", "----.whl", "-----.whl", "a-1-py3-none-any.whl", "a-1--none-any.whl", "a-1-py3..py2-none-any.whl",
+    "a-1-1-py3-none-any.whl", "a-1-py3-none-any.whl.whl", "a.whl-1-py3.whl-none-any.whl", "a-1-1whl-py3-none-any.whl",
+    "dir/with-dash/a-1-py3-none-any.whl", "a-1-py3-none-any.whl\n", " a-1-py3-none-any.whl", "a-1-py3-none-.whl",
+    "a-1-cp31_0-none-any.whl", "a-1-cp3_10-cp3_10-any.whl", "a-1-py3,<4-none-any.whl", "a-1-py3 -none-any.whl",
+    "a-1-py3*-none-any.whl", "a-1-py3!1-none-any.whl", "a-1-py3e5-none-any.whl", "a-1-cp3e1-abi3-any.whl",
+    "a-1-py-none-any.whl", "a-1-p-none-any.whl", "a-1-cp-abi3-any.whl", "a-1-cp3-cp3-any.whl", "a-1-cp310-cp3100-any.whl",
+    "a-1-cp310-cp310_-any.whl", "a-1-cp310-_-any.whl", "a-1-py3-pypy-any.whl", "a-1-pp310-pypy310_pp73-any.whl",
+    "a-1-cp3 10-none-any.whl", "a-1-py3\t-none-any.whl", "a-1-py0-none-any.whl", "a-1-py00-none-any.whl",
+    "a-1-py3.0-none-any.whl", "a-1-cp3==-none-any.whl", "a-1-py3||-none-any.whl", "a-1-cp3+1-none-any.whl",
 ]:
-    check_wheel(fn, "NEW (non-ASCII, cosmetic) ")
+    check_wheel(fn)
 
-# --------------------------------------------------------------------------
-# 3. platforms: choices(), aliases, round trip for every os x arch x version
-# --------------------------------------------------------------------------
-aliases = {
+
+# ---------------------------------------------------------------- platform names
+ALIASES = {
     "linux": "manylinux_2_17_x86_64",
     "windows": "windows_amd64",
     "macos": "macos_14_0_arm64",
@@ -194,108 +158,113 @@ aliases = {
     "macos_arm64": "macos_14_0_arm64",
     "macos_x86_64": "macos_14_0_x86_64",
 }
-for a, t in aliases.items():
+OSCLS = {"manylinux": dos.Manylinux, "musllinux": dos.Musllinux, "macos": dos.Macos}
+ARCH = {"x86_64": Arch.X86_64, "aarch64": Arch.Aarch64, "arm64": Arch.Aarch64}
+
+
+def check_platform(name: str, expect: Platform | None = None) -> Platform | None:
+    global cases
     cases += 1
-    if Platform.parse(a) != Platform.parse(t):
-        findings.append(f"alias {a!r} -> {Platform.parse(a)} but documented target {t}")
-versions = [(0, 0), (1, 0), (1, 1), (1, 2), (2, 5), (2, 17), (2, 28), (2, 36), (10, 9), (10, 16), (11, 0), (14, 0), (14, 2), (15, 5), (26, 0), (99, 99), (100, 1000)]
-for choice in Platform.choices():
-    for x, y in versions:
-        name = choice.replace("X_Y", f"{x}_{y}")
-        cases += 1
-        try:
-            p = Platform.parse(name)
-        except Exception as e:  # noqa: BLE001
-            findings.append(f"choices entry {name!r} does not parse: {e!r}")
-            continue
-        if Platform.parse(str(p)) != p or hash(Platform.parse(str(p))) != hash(p):
-            findings.append(f"round trip fails for {name!r}: str -> {str(p)!r}")
-        if "X_Y" in choice:
-            if (p.os.major, p.os.minor) != (x, y) or not str(p.os).startswith(choice.split("_")[0]):
-                findings.append(f"{name!r} parsed as {p!r}")
-            want_arch = {"arm64": Arch.Aarch64, "aarch64": Arch.Aarch64, "x86_64": Arch.X86_64}[name.split("_", 3)[3]]
-            if p.arch is not want_arch:
-                findings.append(f"{name!r} parsed with arch {p.arch!r}")
-        if "X_Y" not in choice:
-            break
-# constructed objects (not through the parser)
-for os_cls, arch, (x, y) in itertools.product((os.Manylinux, os.Musllinux, os.Macos), Arch, versions):
-    p = Platform(os_cls(x, y), arch)
-    cases += 1
+    try:
+        p = Platform.parse(name)
+    except Exception as e:
+        report(f"Platform.parse({name!r}) raised {type(e).__name__}: {e}")
+        return None
+    if expect is not None and p != expect:
+        report(f"Platform.parse({name!r}) = {p!r}, expected {expect!r}")
     try:
         q = Platform.parse(str(p))
-    except Exception as e:  # noqa: BLE001
-        findings.append(f"str({p!r}) = {str(p)!r} does not parse: {e!r}")
-        continue
+    except Exception as e:
+        report(f"Platform.parse(str(Platform.parse({name!r}))) = parse({str(p)!r}) raised {type(e).__name__}: {e}")
+        return p
     if q != p or hash(q) != hash(p) or str(q) != str(p):
-        findings.append(f"round trip {p!r} -> {str(p)!r} -> {q!r}")
+        report(f"round trip of {name!r}: {p!r} -> {str(p)!r} -> {q!r}")
+    # from_spec / as_dict carry the same platform
+    e = EnvSpec.from_spec(">=3.8", name)
+    if e.platform != p or EnvSpec.from_spec(**e.as_dict()) != e:  # type: ignore[arg-type]
+        report(f"EnvSpec.from_spec/as_dict round trip differs for platform {name!r}")
+    return p
+
+
+for alias, target in ALIASES.items():
+    a = check_platform(alias)
+    t = check_platform(target)
+    if a != t:
+        report(f"alias {alias!r} -> {a!r} but documented target {target!r} -> {t!r}")
+
+nums = [0, 1, 2, 3, 4, 5, 9, 10, 11, 12, 14, 15, 16, 17, 26, 28, 39, 99, 100, 101, 999, 1000, 2010, 2014, 65535, 2**31, 2**64, 10**30]
+for choice in Platform.choices():
+    if "X_Y" not in choice:
+        check_platform(choice)
+        continue
+    fam, _, arch = choice.partition("_X_Y_")
+    for x in nums:
+        for y in nums:
+            for xs, ys in {(str(x), str(y)), ("0" + str(x), str(y)), (str(x), "00" + str(y))}:
+                name = f"{fam}_{xs}_{ys}_{arch}"
+                check_platform(name, Platform(OSCLS[fam](x, y), ARCH[arch]))
+
+# objects built through the constructors: str() must parse back to an equal object
+for oscls in (dos.Manylinux, dos.Musllinux, dos.Macos):
+    for arch in Arch:
+        for x, y in [(1, 2), (2, 17), (10, 9), (14, 0), (2, 0), (0, 0), (123, 456)]:
+            p = Platform(oscls(x, y), arch)
+            cases += 1
+            try:
+                if Platform.parse(str(p)) != p:
+                    report(f"Platform.parse(str({p!r})) = {Platform.parse(str(p))!r}")
+            except Exception as e:
+                report(f"Platform.parse(str({p!r})) raised {type(e).__name__}: {e}")
 for arch in Arch:
-    p = Platform(os.Windows(), arch)
+    p = Platform(dos.Windows(), arch)
     cases += 1
-    if Platform.parse(str(p)) != p:
-        findings.append(f"round trip {p!r} -> {str(p)!r}")
-# arch spellings
-for name, want in {
-    "macos_12_3_aarch64": "macos_12_3_arm64",
-    "manylinux_2_28_arm64": "manylinux_2_28_aarch64",
-    "manylinux_2_28_amd64": "manylinux_2_28_x86_64",
-    "musllinux_1_1_i686": "musllinux_1_1_x86",
-    "windows_i386": "windows_x86",
-    "windows_aarch64": "windows_arm64",
-    "windows_x86_64": "windows_amd64",
-    "manylinux_02_017_x86_64": "manylinux_2_17_x86_64",
-}.items():
-    cases += 1
-    p = Platform.parse(name)
-    if str(p) != want or Platform.parse(str(p)) != p:
-        findings.append(f"{name!r}: str {str(p)!r}, expected {want!r}")
+    try:
+        if Platform.parse(str(p)) != p:
+            report(f"Platform.parse(str({p!r})) = {Platform.parse(str(p))!r}")
+    except Exception as e:
+        report(f"Platform.parse(str({p!r})) raised {type(e).__name__}: {e}")
 
-# Platform.current() / EnvSpec.current() under several sysconfig platforms
-for plat, machine in [
-    ("linux-x86_64", None), ("linux-aarch64", None), ("linux-i686", None), ("linux-armv7l", None),
-    ("linux-ppc64le", None), ("linux-riscv64", None), ("win-amd64", None), ("win32", None), ("win-arm64", None),
-    ("macosx-11.0-arm64", ("14.4.1", ("", "", ""), "arm64")),
-    ("macosx-10.9-universal2", ("13.6", ("", "", ""), "x86_64")),
-    ("macosx-10.9-x86_64", ("10.15.7", ("", "", ""), "x86_64")),
-]:
-    cases += 1
-    with mock.patch("sysconfig.get_platform", return_value=plat), mock.patch(
-        "platform.mac_ver", return_value=machine
-    ):
-        try:
-            p = Platform.current()
-            if Platform.parse(str(p)) != p:
-                findings.append(f"current() under {plat}: {p!r} does not round trip via {str(p)!r}")
-        except Exception as e:  # noqa: BLE001
-            findings.append(f"current() under {plat}: {e!r}")
-e = EnvSpec.current()
+# Platform.current() / EnvSpec.current() round trip on this machine
+cur = Platform.current()
 cases += 1
-if EnvSpec.from_spec(**e.as_dict()) != e:
-    findings.append(f"EnvSpec.current() {e} does not round trip through as_dict()/from_spec()")
+if Platform.parse(str(cur)) != cur:
+    report(f"Platform.current() = {cur!r} does not round trip through {str(cur)!r}")
+ec = EnvSpec.current()
+if EnvSpec.from_spec(**ec.as_dict()) != ec:  # type: ignore[arg-type]
+    report(f"EnvSpec.current() does not round trip through as_dict(): {ec.as_dict()}")
 
-# --------------------------------------------------------------------------
-# 4. observations on Platform.parse outside the documented families (not counted as
-#    violations of the quantified statement, listed for the record)
-# --------------------------------------------------------------------------
-observations = []
-for s in ["manylinux_2_17_x86_64\n", "manylinux_２_１７_x86_64", "macos_١٤_0_arm64"]:
+# ---------------------------------------------------------------- observations outside the quantifier
+print("\nObservations outside the property's quantifier (not counted as violations):")
+for name in ["manylinux_2_17_mips", "macos_14_0_ppc", "windows_mips", "windows_", "manylinux_2_17_x86_64\n",
+             "manylinux_２_１７_x86_64"]:
     try:
-        observations.append(f"Platform.parse({s!r}) is accepted -> {Platform.parse(s)} (regex '$' / Unicode \\d)")
-    except Exception as ex:  # noqa: BLE001
-        pass
-for s in ["manylinux_2_17_sparc", "macos_14_0_1_arm64", "windows_", "windows_sparc", "macos"[:3]]:
-    try:
-        Platform.parse(s)
-    except PlatformError:
-        pass
-    except Exception as ex:  # noqa: BLE001
-        observations.append(f"Platform.parse({s!r}) raises {type(ex).__name__} rather than PlatformError: {ex}")
+        print(f"  Platform.parse({name!r}) -> {Platform.parse(name)!r}")
+    except Exception as e:
+        print(f"  Platform.parse({name!r}) raised {type(e).__name__} (PlatformError? {isinstance(e, PlatformError)}): {e}")
 
-print(f"cases run: {cases}")
-print(f"violations: {len(findings)}")
-for f in findings:
-    print("  VIOLATION", f)
-print("observations (outside the documented families):")
-for o in observations:
-    print("  NOTE", o)
-sys.exit(0)
+# ---------------------------------------------------------------- Platform.current() with stubbed hosts
+# Platform.current() is a constructor other than the parser; its result p must satisfy
+# Platform.parse(str(p)) == p as well.  The host is simulated by stubbing sysconfig / packaging.
+print("\nPlatform.current() on simulated hosts (stubs; candidate finding, environment dependent):")
+import sysconfig  # noqa: E402
+
+import packaging._manylinux as _ml  # noqa: E402
+import packaging._musllinux as _mu  # noqa: E402
+
+_saved = (sysconfig.get_platform, _ml._get_glibc_version, _mu._get_musl_version)
+try:
+    sysconfig.get_platform = lambda: "linux-x86_64"
+    _mu._get_musl_version = lambda exe: None
+    # packaging's own answer when neither glibc nor musl can be identified (bionic, static builds)
+    _ml._get_glibc_version = lambda: (-1, -1)
+    p = Platform.current()
+    try:
+        q = Platform.parse(str(p))
+        print(f"  linux host without glibc/musl: current()={p!r}, str={str(p)!r}, parses back to {q!r}")
+    except Exception as e:
+        print(f"  linux host without glibc/musl: Platform.current() = {p!r}; str(p) = {str(p)!r}; "
+              f"Platform.parse(str(p)) raised {type(e).__name__}: {e}   (expected: == p)")
+finally:
+    sysconfig.get_platform, _ml._get_glibc_version, _mu._get_musl_version = _saved
+
+print(f"\n{cases} cases run, {len(found)} new violation(s) found")
